@@ -1257,7 +1257,7 @@ class InMsg(TlbScheme):
             return cls('msg_discard_fin',
                        in_msg=MsgEnvelope.deserialize(cell_slice.load_ref().begin_parse()),
                        transaction_id=cell_slice.load_uint(64),
-                       transit_fee=cell_slice.load_coins(),
+                       fwd_fee=cell_slice.load_coins(),
                        )
         if tag == '111':
             return cls('msg_discard_tr',
@@ -1369,7 +1369,7 @@ class OutMsg(TlbScheme):
                        import_block_lt=cell_slice.load_uint(63)
                        )
         if tag == '1101':
-            return cls('msg_export_deq',
+            return cls('msg_export_deq_short',
                        msg_env_hash=cell_slice.load_bytes(32),
                        next_workchain=cell_slice.load_int(32),
                        next_addr_pfx=cell_slice.load_uint(64),
